@@ -1,8 +1,10 @@
 ------------------------------- MODULE Hashes -------------------------------
 (***************************************************************************)
-(* C15 (part 1) -- the hash functions of golib whose values are persisted  *)
-(* as identifiers: util/hash (Hash, Hash64, Hash64v2, Hash64V2 and their   *)
-(* string forms) and util/hll/MurmurHash (32/64-bit MurmurHash2 ports).    *)
+(* C15 -- hashes and identifier encodings of golib whose values are        *)
+(* persisted as identifiers: util/hash (Hash, Hash64, Hash64v2, Hash64V2   *)
+(* and their string forms), util/hll/MurmurHash (32/64-bit MurmurHash2     *)
+(* ports), stringutil.HashCode; with Hexa32.tla (base-32 identifier text)  *)
+(* and BitIp.tla (composite keys, IPv4 conversions).                       *)
 (*                                                                         *)
 (* Part 1: REFERENCE FUNCTIONS as pure operators over byte tuples, written *)
 (*   from the published algorithms and sharing nothing with golib:         *)
@@ -10,16 +12,16 @@
 (*                     table is DERIVED here from the generator polynomial *)
 (*     Crc32Wide64(bs) the variant golib's Hash64 implements (named below) *)
 (*     Crc32Lanes(bs)  the variant Hash64v2/Hash64V2 implement             *)
-(*     Murmur32(bs, seed), MurmurLong(w8), Murmur64(bs, seed)              *)
-(* Part 2: the state machine "a process calls the hash functions": the     *)
-(*   memo of every (function, input) evaluated in a history; a call must   *)
-(*   return the reference value AND the value memorised before (purity:    *)
-(*   "values for given inputs never change").                              *)
+(*     Murmur32(bs, seed), MurmurLong(w8), Murmur64(bs, seed), Poly31(bs)  *)
+(* Part 2: the state machine "a process calls the pure functions": the     *)
+(*   memo of every (function family, input) evaluated in a history; a call *)
+(*   must return the reference value AND the value memorised before        *)
+(*   (purity: "values for given inputs never change").                     *)
 (*                                                                         *)
 (* Representation (Bytes.tla): every word is a tuple of bytes, most        *)
 (* significant first; int32/int64 results are the two's complement bytes.  *)
 (***************************************************************************)
-EXTENDS Bytes, Bitwise
+EXTENDS Bytes, Bitwise, Hexa32, BitIp
 
 \* force a function over 1..n into a concrete tuple (TLC keeps [i \in S |-> e]
 \* symbolic and would re-evaluate e at every application)
@@ -152,7 +154,10 @@ Murmur32C(bs, seed) == Murmur32With(bs, seed, TailC(bs))          \* published r
 Murmur32(bs, seed)  == Murmur32With(bs, seed, TailPort(bs))   \* what golib persists
 
 (* hashLong of the port: MurmurHash2 over the 8 bytes of a 64-bit value,    *)
-(* low word first, with the state started at 0 (i.e. seed = length = 8).    *)
+(* low word first, with the state started at 0 (= seed XOR length for the   *)
+(* seed 8): MurmurLong(v) = Murmur32C(Rev(v), <<0,0,0,8>>) (checked in MC). *)
+(* golib's MurmurHash(uint32) widens its argument with zeros (the Java      *)
+(* original sign-extends an Integer; a Go uint32 has no sign).              *)
 MurmurLong(v) ==
   Bind(Mix32(Low(v, 4)), LAMBDA h1 :
     Avalanche32(XorB(MulMod(h1, M32), Mix32(High(v, 4)))))
@@ -176,47 +181,124 @@ Murmur64(bs, seed) ==
        LAMBDA h : Avalanche64(IF Len(bs) % 8 = 0 THEN h ELSE MulMod(XorB(h, Tail64(bs)), M64)))
 
 -----------------------------------------------------------------------------
-(* Everything the hash family returns for one input: `arg` a byte string,   *)
-(* `seed` a 4-byte murmur seed, `plen` <= Len(arg) a prefix length for the   *)
-(* 64-bit murmur entry point that takes an explicit length.                 *)
-RefBytes(arg, seed, plen) ==
-  [crc32     |-> Crc32(arg),
-   wide64    |-> Crc32Wide64(arg),
-   lanes     |-> Crc32Lanes(arg),
-   murmur32  |-> Murmur32(arg, DefaultSeed),
-   murmur32s |-> Murmur32(arg, seed),
-   murmur64  |-> Murmur64(arg, DefaultSeed),
-   murmur64p |-> Murmur64(High(arg, plen), DefaultSeed)]
-\* ... and for one 64-bit value (8 bytes)
-RefLong(v) == [murmurlong |-> MurmurLong(v)]
+(* Poly31 -- stringutil.HashCode ("replacement of Java's String.hashCode"): *)
+(* h := 31*h + b over the BYTES of the string, carried in Go's `int`, i.e.  *)
+(* a 64-bit register on the platforms golib is built for.  Named variant:   *)
+(* Java works on UTF-16 units in a 32-bit register; the low 32 bits of      *)
+(* Poly31 are Java's value for ASCII strings (checked in MC).  The value is *)
+(* used for hash buckets only, but is pinned like the others.               *)
+\* w*m + add modulo 2^(8*Len(w)) for small m, add (< 2^15): one pass over the limbs
+RECURSIVE MulSmallFrom(_, _, _, _)
+MulSmallFrom(w, m, i, carry) ==
+  IF i = 0 THEN <<>>
+  ELSE Bind(w[i] * m + carry, LAMBDA t : Append(MulSmallFrom(w, m, i - 1, t \div 256), t % 256))
+MulSmallAdd(word, m, add) == Bind(word, LAMBDA w : MulSmallFrom(w, m, Len(w), add))
+
+RECURSIVE PolyLoop(_, _, _, _)
+PolyLoop(bs, i, h, m) == IF i > Len(bs) THEN h
+                         ELSE Bind(MulSmallAdd(h, m, bs[i]), LAMBDA g : PolyLoop(bs, i + 1, g, m))
+Poly31(bs)   == PolyLoop(bs, 1, Zeros(8) \o <<>>, 31)
+Poly31J(bs)  == PolyLoop(bs, 1, Zeros(4) \o <<>>, 31)      \* the 32-bit register of Java
 
 -----------------------------------------------------------------------------
-(* State machine.  memo: the inputs evaluated in this history and the       *)
-(* record of values returned for each.                                      *)
+(* Everything the hash family returns for one input: `arg` a byte string,   *)
+(* `seed` a 4-byte murmur seed, `plen` <= Len(arg) a prefix length for the   *)
+(* 64-bit murmur entry point that takes an explicit length.  The field      *)
+(* names are the golib entry points (lower-cased where two differ by case). *)
+RefBytes(arg, seed, plen) ==
+  Bind(Crc32(arg), LAMBDA c :
+  Bind(Crc32Wide64(arg), LAMBDA w :
+  Bind(Crc32Lanes(arg), LAMBDA n :
+    [hash        |-> c,  hashstr   |-> c,
+     hash64      |-> w,  hash64str |-> w,
+     hash64v2    |-> n,  hash64V2  |-> n,  hash64strv2 |-> n,  longhash |-> n,
+     murmur      |-> Murmur32(arg, DefaultSeed),
+     murmurseed  |-> Murmur32(arg, seed),
+     murmur64    |-> Murmur64(arg, DefaultSeed),
+     murmur64p   |-> Murmur64(High(arg, plen), DefaultSeed),
+     hashcode    |-> Poly31(arg)])))
+\* ... for one 64-bit value (8 bytes) and one 32-bit value (4 bytes)
+RefLong(v) == [murmurlong |-> MurmurLong(v)]
+RefInt(v)  == [murmurint |-> MurmurLong(ZeroExt(v, 8))]
+
+(* hexa32: the text of a number and the number read back from that text     *)
+RefHexa(v) == Bind(H32Enc(v), LAMBDA t : [text |-> t, back |-> H32Dec(t)])
+RefHexaDec(t) == [value |-> H32Dec(t)]
+
+(* bitutil: hi, lo halves (n bytes each), src a key (2n bytes).  SetHigh /   *)
+(* SetLow exist for 64-bit keys only; the operators are width-generic.      *)
+RefBit(hi, lo, src) ==
+  [comp |-> Composite(hi, lo), high |-> GetHigh(src), low |-> GetLow(src),
+   sethigh |-> SetHigh(src, hi), setlow |-> SetLow(src, lo)]
+
+(* iputil: text of the 4 bytes / of the int32, the bytes read back from the *)
+(* text, the int32 of the bytes, the bytes of the int32                     *)
+RefIp(a) == Bind(IpText(a), LAMBDA t :
+  [text |-> t, textint |-> t, textfrint |-> t, parsed |-> IpParse(t), int |-> IpInt(a), frint |-> IpFromInt(a)])
+RefIpParse(t) == [parsed |-> IpParse(t)]
+
+-----------------------------------------------------------------------------
+(* State machine.  memo: function from the inputs evaluated in this history *)
+(* to the record of values returned for each.  A key is <<family, args>>,   *)
+(* args a tuple of byte tuples.                                             *)
 VARIABLE memo
 vars == <<memo>>
 
-Init == memo = <<>>          \* a sequence of [k |-> key, v |-> record of values]
+Init == memo = <<>>
 
-Known(k) == \E i \in 1..Len(memo) : memo[i].k = k
-ValueOf(k) == memo[CHOOSE i \in 1..Len(memo) : memo[i].k = k].v
+Known(k) == k \in DOMAIN memo
 
-\* the process evaluated the family on key k and got the record `outs`:
+\* the process evaluated a family on key k and got the record `outs`:
 \* enabled only if outs is what this key returned before (purity)
 Record(k, outs) ==
-  /\ Known(k) => ValueOf(k) = outs
-  /\ memo' = IF Known(k) THEN memo ELSE Append(memo, [k |-> k, v |-> outs])
+  /\ Known(k) => memo[k] = outs
+  /\ memo' = IF Known(k) THEN memo
+             ELSE [x \in DOMAIN memo \cup {k} |-> IF x = k THEN outs ELSE memo[x]]
 
 EvalBytes(arg, seed, plen, outs) ==
-  /\ plen \in 0..Len(arg)
+  /\ Len(seed) = 4 /\ plen \in 0..Len(arg)
   /\ outs = RefBytes(arg, seed, plen)
-  /\ Record(<<"bytes", arg, seed, plen>>, outs)
+  /\ Record(<<"bytes", <<arg, seed, <<plen>>>>>>, outs)
 
 EvalLong(v, outs) ==
   /\ Len(v) = 8
   /\ outs = RefLong(v)
-  /\ Record(<<"long", v>>, outs)
+  /\ Record(<<"long", <<v>>>>, outs)
 
-\* purity as a state invariant: the memo is a function (no key with two values)
-Pure == \A i, j \in 1..Len(memo) : memo[i].k = memo[j].k => memo[i].v = memo[j].v
+EvalInt(v, outs) ==
+  /\ Len(v) = 4
+  /\ outs = RefInt(v)
+  /\ Record(<<"int", <<v>>>>, outs)
+
+EvalHexa(v, outs) ==
+  /\ Len(v) = 8
+  /\ outs = RefHexa(v)
+  /\ outs.back = v                        \* decoding an encoding returns the number
+  /\ Record(<<"hexa", <<v>>>>, outs)
+
+EvalHexaDec(t, outs) ==
+  /\ H32Readable(t)
+  /\ outs = RefHexaDec(t)
+  /\ Record(<<"hexadec", <<t>>>>, outs)
+
+EvalBit(hi, lo, src, outs) ==
+  /\ Len(hi) \in {1, 2, 4} /\ Len(lo) = Len(hi) /\ Len(src) = 2 * Len(hi)
+  /\ \A f \in DOMAIN outs : f \in DOMAIN RefBit(hi, lo, src) /\ outs[f] = RefBit(hi, lo, src)[f]
+  /\ {"comp", "high", "low"} \subseteq DOMAIN outs
+  /\ (Len(hi) = 4 => {"sethigh", "setlow"} \subseteq DOMAIN outs)
+  /\ Record(<<"bit", <<hi, lo, src>>>>, outs)
+
+EvalIp(a, outs) ==
+  /\ Len(a) = 4
+  /\ outs = RefIp(a)
+  /\ outs.parsed = a /\ outs.frint = a     \* the conversions are mutual inverses
+  /\ Record(<<"ip", <<a>>>>, outs)
+
+EvalIpParse(t, outs) ==
+  /\ IpReadable(t)
+  /\ outs = RefIpParse(t)
+  /\ Record(<<"ipparse", <<t>>>>, outs)
+
+\* purity as a state property: a step never changes what a key returned
+Pure == [][\A k \in DOMAIN memo : k \in DOMAIN memo' /\ memo'[k] = memo[k]]_vars
 =============================================================================
